@@ -87,12 +87,9 @@ int merge_msa(struct msa** dest, struct msa* src)
                 RUN(alloc_msa(&d,src->alloc_numseq));
                 /* d = alloc_msa(); */
         }
-        if(d->biotype != ALN_BIOTYPE_UNDEF){
-        /* if(d->L != ALPHA_UNDEFINED){ */
-                if(d->biotype != src->biotype){
-                        ERROR_MSG("Input alignments have different alphabets");
-                }
-        }
+        /* Whether the input is nucleotide or protein is a property of all sequences together, exactly as if
+           they had come in one file: the letter counts are pooled below and detect_alphabet() decides on the
+           pooled counts. A single file (e.g. one record "GATTACA" of a protein set) may look different alone. */
         if(d->aligned == ALN_STATUS_FINAL){
                 /* sequences are added to an alignment that has already been written out in its final form:
                    the combined set is not an alignment any more; go back to the plain sequences */
